@@ -973,7 +973,7 @@ LEVEL_TEXT = ('Lean theorems over the statement-by-statement model of the four l
               '= the declarative fold declaredTables), process_column_spec / trace_process_columns_spec (a line is formatted '
               'with the tables as of its trigger event: name(pid) of the declared pid, Error: tid N when never declared), '
               'kevent_process_column_spec (event lines: thread map alone), samples_thread_info_is_bit0. '
-              'End to end over Model/EndToEnd (bytes of a dump -> lines): e2e_line_shape (line i = _format_trace of trace i of '
+              'End to end over Model/EndToEnd (bytes of a version-2 or version-3 dump -> lines): e2e_line_shape (line i = _format_trace of trace i of '
               'traces() on the tables at its yield; nothing added, reordered or dropped but the traces from the first rendering '
               'exception on), e2e_process_column / e2e_process_column_unfiltered (line i is the join of its columns and its '
               'process column is processSpec of declaredTables of the prefix ending with its trigger event), e2e_unreadable. '
